@@ -20,7 +20,7 @@ RULE = (
     "non-trivial = repeated single-agent measurements / unequal chains / >=2 samples present"
 )
 ASSUMPTIONS = ["correlation cases whose centred prediction row is identically zero (0/0 diagonal) are detected and skipped"]
-REQUIRED = {"evaluation_cases": {"quick": 300, "thorough": 8000}, "single_effect_cases": {"quick": 300, "thorough": 8000}, "single_effect_cases_with_sparse_ids": {"quick": 80, "thorough": 2000}, "synergy_cases": {"quick": 300, "thorough": 8000}, "correlation_cases": {"quick": 60, "thorough": 1500}, "combinatoric_space_cases": {"quick": 100, "thorough": 2500}}
+REQUIRED = {"analysis_cli_runs": {"quick": 8, "thorough": 80}, "evaluation_cases": {"quick": 300, "thorough": 8000}, "single_effect_cases": {"quick": 300, "thorough": 8000}, "single_effect_cases_with_sparse_ids": {"quick": 80, "thorough": 2000}, "synergy_cases": {"quick": 300, "thorough": 8000}, "correlation_cases": {"quick": 60, "thorough": 1500}, "combinatoric_space_cases": {"quick": 100, "thorough": 2500}}
 N_CASES = {"quick": 1920, "thorough": 24000}
 
 
@@ -68,6 +68,8 @@ def run_shard(rec, tier, seed, shard, nshards):
 
     rng = kit.rng_for(seed, NUM, shard)
     n_cases = N_CASES[tier] // nshards
+    last_eval = None
+    cli_budget = {"quick": 2, "thorough": 10}[tier]
     with kit.scratch_dir("vf-c20-") as tmp:
         for ci in range(n_cases):
             # ------------------------------------------------ ModelEvaluation
@@ -110,6 +112,8 @@ def run_shard(rec, tier, seed, shard, nshards):
                 ref_ic = fvar(fmean(sq[e][t] for e in range(E) for t in range(T) if chains[t] == c) for c in sorted(set(chains.tolist())))
                 ref_mean = [fmean(pred[e, t] for t in range(T)) for e in range(E)]
                 rec.check(approx(got[0], ref_mse), "C20/evaluation/mse", lambda: "mse %r, definition %r" % (got[0], ref_mse), w)
+                if len(set(chains.tolist())) >= 2 and E >= 2:
+                    last_eval = (me, ref_mse, ref_var, ref_ic, dict(w))
                 per_exp = [fmean(row) for row in sq]
                 var_tol = 1e-9 * (1 + abs(ref_var)) + 64 * 2.2e-16 * max(abs(x) for x in per_exp) * (max(per_exp) - min(per_exp) + 1e-300) * 4
                 rec.check(abs(float(got[1]) - ref_var) <= var_tol and float(got[1]) >= 0, "C20/evaluation/mse-variance", lambda: "mse_variance %r, variance over experiments of per-experiment MSE %r" % (got[1], ref_var), w)
@@ -316,3 +320,27 @@ def run_shard(rec, tier, seed, shard, nshards):
                     rec.check(bool(np.allclose(C, C.T, rtol=0, atol=1e-12)), "C20/correlation/asymmetric", "similarity matrix is not symmetric", w)
                     rec.check(bool(np.allclose(np.diag(C), 1.0, rtol=0, atol=1e-9)), "C20/correlation/diagonal-not-one", lambda: "diagonal %r" % np.diag(C).tolist(), w)
                     rec.check(bool(np.allclose(C, np.array(ref), rtol=0, atol=1e-8)), "C20/correlation/differs-from-definition", lambda: "similarity %r, definition %r" % (C.tolist(), ref), w)
+                # ---- the numbers as the analysis command reports them (summary_statistics.json): an evaluation file with
+                #      several chains, the posterior samples given as ONE combined file
+                if last_eval is not None and cli_budget > 0 and not hasattr(screen, "selection_vector"):
+                    cli_budget -= 1
+                    import json
+                    from batchie.cli import analyze_model_evaluation as cli_an
+
+                    me_, r_mse, r_var, r_ic, w_ = last_eval
+                    f_me, f_sc, f_th, d_out = (os.path.join(tmp, x) for x in ("an_me.h5", "an_screen.h5", "an_thetas.h5", "an_out"))
+                    try:
+                        me_.save_h5(f_me)
+                        screen.save_h5(f_sc)
+                        holder.save_h5(f_th)
+                        kit.run_cli(cli_an.main, ["--model-evaluation", f_me, "--screen", f_sc, "--thetas", f_th, "--output-dir", d_out])
+                        with open(os.path.join(d_out, "summary_statistics.json")) as fh:
+                            rep = json.load(fh)
+                    except Exception as e:
+                        rec.did_not_return("analyze_model_evaluation", e)
+                    else:
+                        rec.count("analysis_cli_runs")
+                        w2 = dict(w_, via="analyze_model_evaluation")
+                        rec.check(approx(rep["mse"], r_mse), "C20/evaluation/mse", lambda: "summary_statistics.json reports mse %r, definition %r" % (rep["mse"], r_mse), w2)
+                        rec.check(abs(float(rep["mse_variance"]) - r_var) <= 1e-9 * (1 + abs(r_var)) + 1e-12, "C20/evaluation/mse-variance", lambda: "summary_statistics.json reports mse_variance %r, definition %r" % (rep["mse_variance"], r_var), w2)
+                        rec.check(approx(rep["inter_chain_mse_variance"], r_ic), "C20/evaluation/inter-chain-variance", lambda: "summary_statistics.json reports inter_chain_mse_variance %r, the variance of the per-chain MSEs is %r" % (rep["inter_chain_mse_variance"], r_ic), w2)
